@@ -1,8 +1,162 @@
-/- driver component stub: replaced by the real component when its model exists -/
+/-
+  driver component `dataset`: epochs of `xformer.data.Dataset` and of `ReplayBufferDataset`,
+  `cat_replay_buffer`, and the C20 predicates on implementation data.
+
+  Text forms (tokens separated by blanks; `*` is the empty list everywhere):
+    cell          an opaque string without blanks, `;` (one field of one row, serialised by the harness)
+    column        cells joined by `;`
+    permutation   ints joined by `,`
+    table         `<ncols> <column>*ncols`
+    batches       `<nb> <column>*(nb*ncols)`             (batch after batch, column order kept)
+    buffer        `<width> <nrows> <nothers> <token row>*nrows <mask row>*nrows <column>*nothers`
+    flat buffer   `<nrows> <nothers> <token row>*nrows <mask row>*nrows <column>*nothers`
+-/
 import TakVerif.Driver.Ser
+import TakVerif.Driver.Batch
+import TakVerif.Model.Batch
+import TakVerif.Spec.Batch
 
 namespace Tak.Driver.Dataset
+open Tak.Batch Tak.BatchSpec Tak.Driver.Batch
 
-def handle : List String → Option String := fun _ => none
+def parseCol (s : String) : Option (List String) := parseList ";" some s
+def showCol (c : List String) : String := showList ";" id c
+def parsePerm (s : String) : Option (List Nat) := parseList "," String.toNat? s
+
+def takeN {α : Type} (f : String → Option α) (n : Nat) (toks : List String) : Option (List α × List String) :=
+  if toks.length < n then none else do
+    let xs ← (toks.take n).mapM f
+    pure (xs, toks.drop n)
+
+def parseTable : List String → Option (List (List String) × List String)
+  | n :: rest => do
+    let n ← n.toNat?
+    takeN parseCol n rest
+  | [] => none
+
+/-- `nb` batches of `ncols` columns each -/
+def parseBatches (ncols : Nat) : List String → Option (List (List (List String)) × List String)
+  | nb :: rest => do
+    let nb ← nb.toNat?
+    let rec go : Nat → List String → Option (List (List (List String)) × List String)
+      | 0, rest => some ([], rest)
+      | k + 1, rest => do
+        let (bt, rest) ← takeN parseCol ncols rest
+        let (bs, rest) ← go k rest
+        pure (bt :: bs, rest)
+    go nb rest
+  | [] => none
+
+def showBatches (bs : List (List (List String))) : String :=
+  " ".intercalate (toString bs.length :: bs.flatMap fun bt => bt.map showCol)
+
+def parseBuffer : List String → Option (Buffer String × List String)
+  | w :: n :: k :: rest => do
+    let w ← w.toNat?
+    let n ← n.toNat?
+    let k ← k.toNat?
+    let (P, rest) ← takeN parseToks n rest
+    let (M, rest) ← takeN parseMask n rest
+    let (O, rest) ← takeN parseCol k rest
+    pure (⟨P, M, w, O⟩, rest)
+  | _ => none
+
+def parseBuffers : List String → Option (List (Buffer String) × List String)
+  | n :: rest => do
+    let n ← n.toNat?
+    let rec go : Nat → List String → Option (List (Buffer String) × List String)
+      | 0, rest => some ([], rest)
+      | k + 1, rest => do
+        let (b, rest) ← parseBuffer rest
+        let (bs, rest) ← go k rest
+        pure (b :: bs, rest)
+    go n rest
+  | [] => none
+
+def parseFlat : List String → Option (FlatBuffer String × List String)
+  | n :: k :: rest => do
+    let n ← n.toNat?
+    let k ← k.toNat?
+    let (P, rest) ← takeN parseToks n rest
+    let (M, rest) ← takeN parseMask n rest
+    let (O, rest) ← takeN parseCol k rest
+    pure (⟨P, M, O⟩, rest)
+  | _ => none
+
+def showFlatLike (P : List (List Nat)) (M : List (List Bool)) (O : List (List String)) : String :=
+  " ".intercalate <|
+    [toString P.length, toString O.length] ++ P.map showToks ++ M.map showMask ++ O.map showCol
+
+/-- the generator oracle replaying recorded permutations -/
+def replayRNG : RNG (List (List Nat)) :=
+  { manualSeed := fun _ => [], randperm := fun _ g => (g.headD [], g.tail) }
+
+def parseBatchesOpt (s : String) : Option (Option Nat) :=
+  if s = "none" then some none else s.toNat?.map some
+
+/-- which C20 clauses fail for the batches `got` of one epoch over the stored columns `file`
+    (truncated by `batches`) with batch size `b` and the recorded permutation `perm` -/
+def epochFailures (b : Nat) (batches : Option Nat) (perm : List Nat) (file : List (List String))
+    (got : List (List (List String))) : List String :=
+  let cfg : DsCfg String := ⟨file, b, batches, 0⟩
+  let data := loadData cfg
+  let n := nRows data
+  (if isPermOfRange perm.length perm then [] else ["randperm-not-a-permutation"]) ++
+  (if batchSizesOK n b got then [] else ["batch-size"]) ++
+  (if alignedOK file got then
+    -- whole rows came out: each exactly once? (with `batches` set: exactly the first rows?)
+    (if permOK data got then [] else [if batches.isSome then "truncation" else "row-lost-or-duplicated"])
+   else ["misaligned-fields"])
+
+/-- ops:
+  `stream <b> <batches|none> <k> <perm>*k <table>`        → `ok <batches>*k`   (file dataset, `k` epochs)
+  `check-epoch <b> <batches|none> <perm> <table> <batches>` → `ok` | `fail <keys>`
+  `cat <n> <buffer>*n`                                    → `ok <flat buffer>`
+  `check-cat <n> <buffer>*n <flat buffer>`                → `ok` | `fail pad-not-masked`
+  `rbepoch <b> <perm> <n> <buffer>*n`                     → `ok <nb> <flat buffer>*nb`
+  `isperm <n> <perm>`                                     → `true` | `false`
+-/
+def handle : List String → Option String
+  | "stream" :: b :: bt :: k :: rest => do
+    let b ← b.toNat?
+    let bt ← parseBatchesOpt bt
+    let k ← k.toNat?
+    let (perms, rest) ← takeN parsePerm k rest
+    let (file, rest) ← parseTable rest
+    if !rest.isEmpty then none else
+    let R : RNG (List (List Nat)) := { replayRNG with manualSeed := fun _ => perms }
+    let eps := Ds.stream R k (Ds.init R ⟨file, b, bt, 0⟩)
+    pure (" ".intercalate ("ok" :: eps.map showBatches))
+  | "check-epoch" :: b :: bt :: perm :: rest => do
+    let b ← b.toNat?
+    let bt ← parseBatchesOpt bt
+    let perm ← parsePerm perm
+    let (file, rest) ← parseTable rest
+    let (got, rest) ← parseBatches file.length rest
+    if !rest.isEmpty then none else
+    pure (showFailures (epochFailures b bt perm file got))
+  | "cat" :: rest => do
+    let (bufs, rest) ← parseBuffers rest
+    if !rest.isEmpty then none else
+    let flat := catReplayBuffer bufs
+    pure ("ok " ++ showFlatLike flat.positions flat.mask flat.others)
+  | "check-cat" :: rest => do
+    let (bufs, rest) ← parseBuffers rest
+    let (flat, rest) ← parseFlat rest
+    if !rest.isEmpty then none else
+    pure (if catMaskOK bufs flat then "ok" else "fail pad-not-masked")
+  | "rbepoch" :: b :: perm :: rest => do
+    let b ← b.toNat?
+    let perm ← parsePerm perm
+    let (bufs, rest) ← parseBuffers rest
+    if !rest.isEmpty then none else
+    let bs := rbEpoch perm b (catReplayBuffer bufs)
+    pure (" ".intercalate ("ok" :: toString bs.length ::
+      bs.map fun bt => showFlatLike bt.positions bt.mask bt.others))
+  | ["isperm", n, perm] => do
+    let n ← n.toNat?
+    let perm ← parsePerm perm
+    pure (toString (isPermOfRange n perm))
+  | _ => none
 
 end Tak.Driver.Dataset
